@@ -641,9 +641,12 @@ class MarkdownNormalizer(Renderer):
             # A hard line break inside a (setext) heading: an ATX heading is a single line and
             # cannot hold it, so the setext form is kept.
             lines = children_content.split("\n")
-            # What follows a hard break starts a line: a marker-like first word is escaped there
-            # as at any wrapped line start.
-            lines[1:] = [markdown_escape_first_word(line, paragraph_start=False) for line in lines[1:]]
+            # Every line of it starts a line: a marker-like first word is escaped there as at
+            # any wrapped line start (in an ATX heading `1.` needs no escape, here it does).
+            lines = [
+                markdown_escape_first_word(line, paragraph_start=(k == 0))
+                for k, line in enumerate(lines)
+            ]
             lines.append(("=" if element.level == 1 else "-") * 3)
             heading_text = "\n".join(
                 [self._prefix + lines[0]] + [self._second_prefix + line for line in lines[1:]]
